@@ -772,6 +772,38 @@ var c11Templates = []func(g *Gen, run func(Op) bool){
 	},
 }
 
+// the same hostile nonce encodings against a FUNGIBLE holding: a nonce argument whose low 64 bits are zero (nine bytes
+// 01 00..00) must not make a nonce-taking function read the plain balance entry as "NFT with nonce 0".
+func init() {
+	c11Templates = append(c11Templates, func(g *Gen, run func(Op) bool) {
+		tok := pickFrom(g, "t11f-tok", [][]byte{[]byte("FNG-a1b2c3"), []byte("FNH-d4e5f6")})
+		a := g.addr("t11f-a")
+		b := g.dest("t11f-b", a)
+		if !run(callOp(g.sysCall(g.shard(a), refBuiltInFunctionESDTTransfer, a, tok, []byte{50}))) {
+			return
+		}
+		nonces := [][]byte{{1, 0, 0, 0, 0, 0, 0, 0, 0}, {0}, {}, {0, 0, 0, 0, 0, 0, 0, 0, 0}, {0xff, 0, 0, 0, 0, 0, 0, 0, 0}, {2, 0, 0, 0, 0, 0, 0, 0, 0, 0, 0, 0, 0, 0, 0, 0, 0}}
+		for _, fn := range []string{refBuiltInFunctionESDTNFTTransfer, refBuiltInFunctionMultiESDTNFTTransfer, refBuiltInFunctionESDTNFTBurn, refBuiltInFunctionESDTNFTAddQuantity, refBuiltInFunctionESDTNFTTransfer} {
+			nb := nonces[g.pick("t11f-nonce", len(nonces))]
+			var call *Call
+			switch fn {
+			case refBuiltInFunctionESDTNFTTransfer:
+				call = g.selfCall(fn, a, tok, nb, []byte{1}, b)
+			case refBuiltInFunctionMultiESDTNFTTransfer:
+				call = g.selfCall(fn, a, b, []byte{1}, tok, nb, []byte{1})
+			default:
+				call = g.selfCall(fn, a, tok, nb, []byte{1})
+			}
+			call.Gas = ampleGas
+			g.Layer = "G2"
+			g.Shape = append(g.Shape[:0], "hostile-nonce", "fungible-holding")
+			if !run(callOp(call)) {
+				return
+			}
+		}
+	})
+}
+
 func TestC11(t *testing.T) {
 	runHistories(t, historyCfg{prop: "C11", weights: c11Weights, minSteps: 10, maxSteps: 60, templates: c11Templates, templateP: 6, nontrivial: func(rec *CallRecord, g *Gen) (string, bool) {
 		if g.Layer != "G2" && g.Layer != "G3" {
